@@ -360,6 +360,10 @@ func vfC03Rows() []vfC03Row {
 			rows = append(rows, vfC03Row{Name: "psk/" + sn, Ver: "12", Rogue: "c", Dev: "control", PSK: true, Expect: "accept", Variant: variant})
 			rows = append(rows, vfC03Row{Name: "psk/" + sn, Ver: "12", Rogue: "c", Dev: "wrong-psk", PSK: true, Expect: "reject", Variant: variant})
 			rows = append(rows, vfC03Row{Name: "psk/" + sn, Ver: "12", Rogue: "s", Dev: "wrong-psk", PSK: true, Expect: "reject", Variant: variant})
+			// the rogue presents an identity the honest side has no key for - its key lookup answers (nil, nil), the
+			// way a Go map lookup does - and keys the handshake with the empty key
+			rows = append(rows, vfC03Row{Name: "psk/" + sn, Ver: "12", Rogue: "c", Dev: "unprovisioned-identity-empty-key", PSK: true, Expect: "reject", Variant: variant})
+			rows = append(rows, vfC03Row{Name: "psk/" + sn, Ver: "12", Rogue: "s", Dev: "unprovisioned-identity-empty-key", PSK: true, Expect: "reject", Variant: variant})
 		}
 	}
 	// An application callback that has no objection must not replace the library's own verdict: every row whose
@@ -421,8 +425,19 @@ func vfC03Run(t *testing.T, res *vfResult, row vfC03Row) {
 				spsk = bad
 			}
 		}
-		cO = append(cO, WithCipherSuites(si.ID), WithPSK(cpsk), WithPSKIdentityHint([]byte("id")))
-		sO = append(sO, WithCipherSuites(si.ID), WithPSK(spsk), WithPSKIdentityHint([]byte("hint")))
+		cid, sid := "id", "hint"
+		if row.Dev == "unprovisioned-identity-empty-key" {
+			keys := map[string][]byte{"id": vfPSKKey, "hint": vfPSKKey}
+			lookup := func(h []byte) ([]byte, error) { return keys[string(h)], nil }
+			empty := func([]byte) ([]byte, error) { return []byte{}, nil }
+			if row.Rogue == "c" {
+				cpsk, spsk, cid = empty, lookup, "mallory"
+			} else {
+				spsk, cpsk, sid = empty, lookup, "mallory"
+			}
+		}
+		cO = append(cO, WithCipherSuites(si.ID), WithPSK(cpsk), WithPSKIdentityHint([]byte(cid)))
+		sO = append(sO, WithCipherSuites(si.ID), WithPSK(spsk), WithPSKIdentityHint([]byte(sid)))
 		co, so = vfCO(cO...), vfSO(sO...)
 	} else {
 		serverCert := pki.Leaf(row.Kind, "server")
